@@ -302,6 +302,28 @@ func runC20(c *run.Ctx) {
 			eval(linkSpecs, []byte("<"+el+string(attrs)+">"))
 		})
 	}
+	// style layer: every style rule set of C10 that is in class, plus a permissive value pattern (which lets escapes and
+	// upper case through to the output), x every sequence of <=2 declarations of C10's alphabet (escapes, upper case,
+	// comments, malformed tails) on two element classes
+	var styleSpecs []built
+	for _, b := range c10Specs() {
+		if inC20Class(b.V) {
+			styleSpecs = append(styleSpecs, b)
+		}
+	}
+	styleSpecs = append(styleSpecs, build(spec.Spec{Name: "c20-style-permissive", Base: "new", Calls: []C{els("p", "span"), {Op: "AllowElementsMatching", Re: reMy},
+		{Op: "AllowStyles", Names: []string{"color", "font-family"}, Re: `^[a-zA-Z0-9\\ ,'"#-]*$`, Scope: "global"},
+		{Op: "AllowStyles", Names: []string{"width"}, Re: `^[A-Za-z0-9\\ ]+$`, Scope: "on", On: []string{"p"}},
+		{Op: "AllowStyles", Names: []string{"content"}, Re: `.*`, Scope: "matching", OnRe: reMy}}}))
+	dts := make([]string, len(c10Decls))
+	for i, d := range c10Decls {
+		dts[i] = d.text + "; "
+	}
+	SeqsS(c, "c20style", dts, 1, 2, func(st []byte, _ []int) {
+		q := htmlAttrQuote(strings.ReplaceAll(strings.TrimSuffix(string(st), "; "), "&", "&amp;"))
+		eval(styleSpecs, []byte("<p style="+q+">t</p>"))
+		eval(styleSpecs, []byte("<my-x id=a style="+q+">t</my-x>"))
+	})
 	// every combination of the five link options x rel admitted (plain / with pattern) or not x target admitted or not
 	var optSpecs []built
 	for _, b := range c11Specs() {
